@@ -38,6 +38,17 @@ def fresh_value(I, st, t, name, lazy=False):
         for c in cs:
             st.assume(z3.And(c >= 0, c <= MAXCP))
         yield st, SStr(chars=cs)
+    elif isinstance(t, StrCat):
+        P = I.fresh(name + '.head', z3.StringSort())
+        cs = [I.fresh('%s.t%d' % (name, k), z3.IntSort()) for k in range(t.k)]
+        sepc = ord(t.sep)
+        for c in cs:
+            st.assume(z3.And(c >= 0, c <= MAXCP, c != sepc))
+        st.assume(z3.Or(P == z3.StringVal(''), z3.SuffixOf(z3.StringVal(t.sep), P)))
+        tail = SStr(chars=cs)
+        v = SStr(expr=z3.Concat(P, tail.z()) if cs else P)
+        v.parts = (P, cs, sepc)
+        yield st, v
     elif t is NoneT:
         yield st, NONE
     elif isinstance(t, Opt):
@@ -177,7 +188,7 @@ def snapshot_value(I, old_st, st, v, memo=None):
             st.heap[r.addr] = HDict([(k, snapshot_value(I, old_st, st, x, memo)) for k, x in o.items])
         elif isinstance(o, HObj):
             st.heap[r.addr] = HObj(o.cls, {k: snapshot_value(I, old_st, st, x, memo) for k, x in o.fields.items()})
-        elif isinstance(o, HSplit):
+        elif isinstance(o, HSplit) or type(o).__name__ == 'HPieces':
             st.heap[r.addr] = o.copy()
         else:
             raise EngineLimit('snapshot of %r' % (o,))
@@ -433,6 +444,21 @@ def str_split(I, node, s, args, kwargs, st):
         maxsplit = SInt(I.as_int(args[1])).conc()
         if maxsplit is None:
             raise EngineLimit('symbolic maxsplit')
+    if not s.is_vec() and maxsplit is None:
+        from .pieces import HPieces
+        hp = HPieces(s.expr, sep.z(), z3.BoolVal(False))
+        sc_ = SInt(sep.chars[0]).conc()
+        if s.parts is not None and sc_ == s.parts[2]:
+            hp.known = (s.parts[0], list(s.parts[1]))
+        yield st, I.alloc(st, hp)
+        return
+    if s.is_vec() and maxsplit is None and getattr(I, 'abstract_vec_split', False):
+        from .pieces import HPieces
+        hp = HPieces(s.z(), sep.z(), z3.BoolVal(False))
+        hp.vchars = list(s.chars)
+        hp.sepc = sep.chars[0]
+        yield st, I.alloc(st, hp)
+        return
     yield st, I.alloc(st, HSplit(s, sep.chars[0], maxsplit))
 
 
